@@ -355,7 +355,7 @@ def _grammar():
     )
     port = st.one_of(
         st.none(),
-        st.sampled_from(["", "80", "0080", "65535", "65536", "99999999999", "0", "00", "-1", "8a", " 80", "80 ", "\u0661", "443", "+80", "1e2"]),
+        st.sampled_from(["", "80", "0080", "65535", "65536", "99999999999", "0", "00", "-1", "8a", " 80", "80 ", "\u0661", "443", "+80", "1e2", "8\uff10", "4\u0664\u0663", "1\u00b2", "9\u0969"]),
     )
     seg = st.sampled_from([".", "..", "a", "%2e", "%2E", "%zz", "%", "a b", "\u00e9", "\\", "a;b=c", "", "@", ":", "%41", "%c3%a9", "\x00", "\n", "...", ".a", "%2e%2e", "~", "+"])
     path = st.one_of(st.just(""), st.lists(seg, min_size=1, max_size=6).map(lambda l: "/" + "/".join(l)), st.lists(seg, min_size=1, max_size=3).map("/".join))
@@ -472,7 +472,7 @@ def presets():
     urls = [
         "http://:", "http://@", "http://", "http://a@b@c/", "http://a\\@b/", "http://[::1%25eth0]:80/",
         "http://google.com:80", "google.com:80", "/foo?bar", "http://user:pw@EXAMPLE.com:0080/a/../b?x#y",
-        "http://a/%2e%2E/%zz", "HTTP://\u00e9.com", "http://[fe80::1%eth0]/",
+        "http://a/%2e%2E/%zz", "HTTP://\u00e9.com", "http://[fe80::1%eth0]/", "http://example.com:8\uff10/", "http://[::1]:4\u0664\u0663",
     ]
     return [_mkcase(u) for u in urls]
 
